@@ -214,7 +214,11 @@ class MDOChain(ProcessDiscipline):
                                     loc_dot + output_jacobian[new_in]
                                 )
                             else:
-                                output_jacobian[new_in] += loc_dot
+                                # Not in place: the two terms may have different data
+                                # types, e.g. integer and float Jacobians.
+                                output_jacobian[new_in] = (
+                                    output_jacobian[new_in] + loc_dot
+                                )
                         else:
                             # The output is not yet linearized wrt this
                             # input_name.  We are in the case:
